@@ -356,6 +356,29 @@ def ill_body(case):
                       lambda: dict(before=int(prev.sum()), after=int(now.sum())))
         if code != -1:
             break
+    # after breakpoints were dropped, a status-0 fit must be the weighted least-squares optimum on the REDUCED knot vector
+    mk = np.asarray(b.mask, dtype=bool)
+    if statuses[-1] == 0 and not mk.all() and len(statuses) > 1:
+        tred = np.asarray(b.breakpoints, dtype='f8')[mk]
+        nord = case['nord']
+        if len(tred) >= 2 * nord:
+            A = bslib.design(tred, nord, x, 'left')
+            Aw = A * np.sqrt(w)[:, None]
+            sv = np.linalg.svd(Aw, compute_uv=False)
+            if len(sv) == A.shape[1] and sv[-1] > 0 and sv[0] / sv[-1] < 1e4:
+                note_label('refit-on-reduced-knots-checked')
+                ref, _, _ = bslib.weighted_lstsq(A, y, w)
+                yref = A.dot(ref)
+                good = w > 0
+                inrange = (x >= tred[nord - 1]) & (x <= tred[len(tred) - nord])
+                with judge('refit-optimality'):
+                    sel = good & inrange
+                    dev = np.abs(np.asarray(yfit, dtype='f8')[sel] - yref[sel])
+                    check(bool(np.all(dev <= 1e-6 * max(1.0, np.abs(y).max()))), 'ill:refit-after-masking-not-least-squares-on-reduced-knots',
+                          lambda: dict(maxdev=float(dev.max()), nord=nord, masked=int((~mk).sum()), statuses=statuses))
+                    cf = np.asarray(b.coeff, dtype='f8')[mk[nord:]]
+                    check(cf.shape == ref.shape and bool(np.all(np.abs(cf - ref) <= 1e-6 * max(1.0, np.abs(ref).max()) * (1 + (sv[0] / sv[-1]) ** 2 * 1e-8))),
+                          'ill:refit-coefficients-differ-from-dense-solve', lambda: dict(maxdev=float(np.abs(cf - ref).max()) if cf.shape == ref.shape else 'shape'))
     with judge('refit-converges'):
         if case['how'] == 'refit':
             check(statuses[-1] != -1, 'ill:masking-never-converges', lambda: dict(statuses=statuses))
